@@ -197,3 +197,53 @@ def comprehension_of(fn_node, name: str):
     lp, elt = loops[0]
     comp = ast.ListComp(elt=elt, generators=[ast.comprehension(target=lp.target, iter=lp.iter, ifs=[], is_async=0)])
     return ast.copy_location(comp, lp)
+
+
+def path_of(e, flow, keep=()):
+    """dotted path of ``e`` in which a leading local that merely names another path (`item = node.data`) is replaced by that path
+    (repeatedly); names in ``keep`` (self, parameters of interest) are never expanded.  None when ``e`` is not a dotted path."""
+    d = dotted(e)
+    if not d:
+        return None
+    root = e
+    while isinstance(root, ast.Attribute):
+        root = root.value
+    seen = 0
+    path = tuple(d)
+    while isinstance(root, ast.Name) and root.id not in keep and isinstance(root.ctx, ast.Load) and seen < 6:
+        ex = flow.expand(root)
+        if ex is root:
+            break
+        dx = dotted(ex)
+        if not dx:
+            break
+        path = tuple(dx) + path[1:]
+        root = ex
+        while isinstance(root, ast.Attribute):
+            root = root.value
+        seen += 1
+    return path
+
+
+def constructor_only_helpers(cls) -> set:
+    """names of private methods of ``cls`` whose every call site inside the class is in __init__ or in another such helper:
+    they are part of the constructor (an extracted piece of it)"""
+    calls = {}      # callee name -> set of caller names
+    for g in cls.methods.values():
+        if g.self_name is None and not g.is_static:
+            continue
+        for c in ast.walk(g.node):
+            if isinstance(c, ast.Call) and isinstance(c.func, ast.Attribute) and isinstance(c.func.value, ast.Name) \
+                    and c.func.value.id in ((g.self_name,) if g.self_name else ()) + (cls.name,):
+                calls.setdefault(c.func.attr, set()).add(g.name)
+    out = set()
+    changed = True
+    while changed:
+        changed = False
+        for name, callers in calls.items():
+            if name in out or name not in cls.methods or not name.startswith("_") or name.startswith("__"):
+                continue
+            if callers and all(c == "__init__" or c in out for c in callers):
+                out.add(name)
+                changed = True
+    return out
